@@ -25,6 +25,7 @@ CHECKS = {
                  '(2) every store to CErr.description_cs and the store of the out-pointer sit in a closure run by LocalKey::with on a key backed only by #[thread_local] statics, '
                  'and the published pointer is traced back to that thread-local RefCell, (3) error_description reads nothing but its argument, '
                  '(4) throw_err is called only with the payload of an Err, so the slot changes only on a failure of the calling thread. '
+                 'and no body that stores to the slot is reachable from the C table once throw_err is cut out of the call graph. '
                  'Under Rust TLS semantics no other thread can reach the slot, so all schedules are covered without enumerating any.'),
         'note': 'Trusted: rustc MIR/trait resolution, Rust thread_local semantics, the rule engines. Assumes a hook does not hand a CErr pointer to another thread.',
     },
@@ -52,13 +53,14 @@ CHECKS['C03'] = {
     'note': 'Structural clauses only; the behavioural equality with an RFC 1035 decode is not claimed. Trusted: rustc MIR, the rule engines.',
 }
 CHECKS['C08'] = {
-    'engine': 'E2 event automata', 'level': 'other',
+    'engine': 'E2 event automata + E4', 'level': 'other',
     'technique': 'path-sensitive must-pass / protocol automata on the MIR CFG with packet-buffer provenance, plus sibling cross-checks of field-write tables',
     'design_ref': 'DESIGN.md section 4, C08',
     'text': ('Decides, for all paths through the listed mutating operations (and fails closed on any other public mutator found by effects): (a) a path that shifts a section offset also shifts offset_edns; '
              '(b) every successful path that replaces, resizes or overwrites name bytes of the packet buffer (provenance-tracked) stores cached = None, with maybe_compressed tracked so that recompute\'s early return is only taken where feasible; '
              '(d) each in-place decompression site takes the reference offset from offset(), stores the translated offset with set_offset before recompute_rr and calls recompute_sections; '
              '(e) RRIterator::recompute derives offset_next per section exactly as the iterator of that section does; (f) re-parse writers copy all five offsets from same-named fields, compare the EDNS summaries and install the parsed bytes; '
+             '(h, E4) every closure that shifts a recorded offset in resize_rr / insert_rr returns x or x + the splice amount on each path, identity paths confined to offsets at or before the cursor, and the offset_edns closure of resize_rr distinguishes OPT before / behind the resized record; '
              '(g) no operation returns Ok with the packet taken out. These are necessary conditions of "object view == fresh parse"; the equality itself over arbitrary operation sequences is a run-time relation and is NOT decided.'),
     'note': 'Structural clauses only. Known unclaimed corner: in-place decompression under an EDNS-option cursor (D19, DESIGN.md section 5). Trusted: rustc MIR, the rule engines.',
 }
@@ -79,7 +81,8 @@ CHECKS['C11'] = {
     'text': ('Decides: (a) on every successful path of TypedIterable::delete (both instantiations): section computed before the splice, exactly one resize_rr by -(offset_next - offset), set_offset_next(offset), invalidate, '
              'exactly one rrcount_dec of the section obtained from current_section, and the start offset of that very section is cleared exactly under the count <= 0 test; (b) in every next*: the unwrap of the section start is dominated by '
              'the count == 0 -> None test on the current header count and rrs_left is re-initialised only under offset.is_none(); (c) advances and rrs_left decrements are paired on all paths (termination measure). '
-             'Which records are yielded/survive for every deletion pattern is a run-time sequence property and is NOT decided.'),
+             'Which records are yielded/survive for every deletion pattern is a run-time sequence property and is NOT decided.'
+             ' (d) in delete the cursor offset is tested (VoidRecord) before any destructive event and before any unwrap/expect of it, in the ok_or, match and is_some forms.'),
     'note': 'Structural clauses only. Trusted: rustc MIR, rule engines.',
 }
 CHECKS['C12'] = {
@@ -99,7 +102,8 @@ CHECKS['C09'] = {
     'text': ('Decides: (b) set_rr_ttl writes bit-exactly the field rr_ttl reads; set_rr_ip writes [10,14)/[10,26) where rr_ip reads, 4 bytes under Type::A and 16 under Type::AAAA; rrcount_inc/dec read and write the same header count per Section and step by one; '
              '(c) insertion_offset consults exactly the later sections\' offsets in wire order; insert_rr per Section records its own start and shifts exactly the later offsets plus offset_edns; (d) exactly one rrcount_inc of the section argument on every successful path; '
              '(e) insert_rr / set_raw_name / delete resize the buffer or overwrite name bytes only on paths where maybe_compressed is known false (so no other record\'s pointer is invalidated). '
-             'The splice geometry (C09.a) is decided by the E4 clause when built. Byte identity of all other records after an operation is a run-time equality and is NOT decided.'),
+             'The splice geometry (C09.a) is decided by the E4 clause when built. Byte identity of all other records after an operation is a run-time equality and is NOT decided.'
+             ' (a-offsets, E4) the closures shifting recorded offsets add exactly the splice amount with the right confinement to the cursor; (d-delete) delete lowers the count of the section determined before the splice.'),
     'note': 'Structural clauses only. Trusted: tables/rfc_layout.json, rustc MIR, rule engines.',
 }
 CHECKS['C04'] = {
@@ -110,6 +114,7 @@ CHECKS['C04'] = {
              '(b) parse_opt reads max_payload/ext_rcode/version/flags/rdlength at the RFC 6891 offsets relative to the end of the OPT owner name, before the 10-byte skip, each summary fed by the getter of its role; '
              'new() starts with 512 and None; parse() copies each summary into the same-role ParsedPacket field; (c) edns_count is zeroed and incremented exactly once per skipped option on every successful path; '
              '(d) the three question getters read type/class at (0,2)/(2,2) behind a position derived from the wire length of the name, never from its decompressed length. '
+             '(e) the name component of every (name,type,class) the question getters build comes from the pointer-following decoder applied to (packet(), offset_question) or from the cache, raw copies only where maybe_compressed is known false. '
              'The three textual forms of the question name (loops over labels) are NOT decided.'),
     'note': 'Trusted: tables/rfc_layout.json and the bit specs, analysis/bits.py, rustc MIR.',
 }
@@ -129,6 +134,7 @@ CHECKS['C18'] = {
     'design_ref': 'DESIGN.md section 4, C18',
     'text': ('Proof of loop bounds for every input: each per-name loop (both name walkers) has a constant iteration bound found automatically (name_len - refs_allowed in [-16,255] => <= 272; name_len <= 255 => <= 128); '
              'the three section loops advance `offset` (<= len) by >= 11 bytes per iteration and the option loop is bounded; parse_rr / parse_question / skip_name are loop-free with a constant number of walk call sites. '
+             'Both arithmetic configurations (overflow checks on and off) are ranked on every run and a bound that is only the range of a counter\'s integer type is refused. '
              'Hence steps <= a*len + b (the derived formula is printed in the evidence). A per-name loop whose best measure is only bounded by the buffer length is reported as quadratic.'),
     'note': 'Trusted: analysis/interp.py, analysis/lin.py, rustc MIR. The cost model counts loop iterations and label bytes, as the property does; no step-counter hook is needed.',
 }
@@ -140,7 +146,8 @@ CHECKS['C15'] = {
              '(b) fn_table() fills each slot with the function of the same name, which reaches the native operation of tables/fn_table_map.json (and not its sibling\'s), on the right Section, value getters returning the native value unchanged; '
              '(c) from_raw_parts_mut on caller pointers is dominated by a capacity test, name copy-outs are length-tested against 255 and NUL-terminated at index == length, raw_packet tests the capacity before copying, optional (ptr,len) pairs become Some only when non-null and non-empty; '
              '(d) every int-returning entry returns 0 on the native Ok path and throw_err(..) (= -1, out-pointer stored only if non-null) on the Err path. '
-             'Equality of results with the native API over whole hook scripts is NOT decided (it follows from thinness only informally).'),
+             'Equality of results with the native API over whole hook scripts is NOT decided (it follows from thinness only informally).'
+             ' (e) CErr\'s field is a CString which throw_err replaces by whole assignment with CString::new(<the reported error>.to_string()), never through a mutable borrow.'),
     'note': 'Trusted: clang 14 AST, tables/fn_table_map.json, rustc MIR. Fixed-size array parameters are bounds-checked by Rust itself once their sizes match the header (checked).',
 }
 CHECKS['C14'] = {
@@ -178,7 +185,8 @@ CHECKS['C06'] = {
     'design_ref': 'DESIGN.md section 4, C06',
     'text': ('Decides: (a) at SuffixDict::insert inside the worker the offset recorded equals the current output length: E4 derives len(out) - len0 = offset - offset0 in the loop and discharges base_offset + offset0 = len(out) at all three call sites; '
              '(b) compress_rdata: name-bearing set, data-length accounting (E4), fixed parts, OPT-including walk in compress(); (c) pointer bytes are (ref >> 8) | 0xc0, ref & 0xff of the dictionary result, an offset is stored / a hit returned only under offset < 16384 (exact constant, dominating test) and only for suffixes >= 3 bytes. '
-             'NOT decided: case-insensitive matching, that decompressing gives the input back, the 16-pointer budget of the output (D18), table wrap-around.'),
+             'NOT decided: case-insensitive matching, that decompressing gives the input back, the 16-pointer budget of the output (D18), table wrap-around.'
+             ' (d) no copy from the input packet below compress() takes an open-ended range packet[a..] (records behind the copied one would be emitted twice).'),
     'note': 'SuffixDict::insert is opaque for the accounting. Trusted: analysis/interp.py contracts.',
 }
 CHECKS['C07'] = {
@@ -187,7 +195,8 @@ CHECKS['C07'] = {
     'design_ref': 'DESIGN.md section 4, C07',
     'text': ('Decides: (a) the data lengths the renamer writes for NS/CNAME/PTR, MX and SOA provably equal the bytes emitted behind the record header; (b) it rewrites names in exactly the validator\'s name-bearing types and copies header + rdlen bytes otherwise; '
              '(c) OPT is carried once, in place: the additional section is walked with OPT included (through the helper\'s parameter) and no copy from the input packet is open-ended; (d) replace_raw refuses an over-long result only for names that matched (no Ok(None) behind the length test). '
-             'Validation-before-commit is decided under C10.a. NOT decided: which names match (run-time comparison), identity-rename equality.'),
+             'Validation-before-commit is decided under C10.a. NOT decided: which names match (run-time comparison), identity-rename equality.'
+             ' (e) typestate over the label walk of replace_raw: a rewritten name is returned only on paths where name.len() - source.len() was found equal to a label boundary of the name.'),
     'note': 'Helpers above the size threshold are havocked for the accounting. Trusted: analysis/interp.py contracts.',
 }
 CHECKS['C13'] = {
